@@ -43,6 +43,8 @@ pub enum Res {
     None,
     /// the operation panicked (message)
     Panicked(String),
+    /// the caller dropped the call's future before it returned (caller-side cancellation)
+    Abandoned,
 }
 
 impl Res {
